@@ -54,13 +54,17 @@ fn format_field(name: &str, value: &str) -> String {
         | "Build-Depends-Arch"
         | "Build-Conflicts"
         | "Build-Conflicts-Indep"
-        | "Build-Conflics-Arch"
+        | "Build-Conflicts-Arch"
         | "Depends"
         | "Recommends"
         | "Suggests"
         | "Enhances"
         | "Pre-Depends"
-        | "Breaks" => {
+        | "Breaks"
+        | "Conflicts"
+        | "Provides"
+        | "Replaces"
+        | "Built-Using" => {
             // debian/control relationship fields routinely contain
             // substitution variables; leave a value that does not parse alone
             let (relations, errors) = Relations::parse_relaxed(value, true);
